@@ -55,6 +55,9 @@ contract(
                                         modifies=dict({k: v for k, v in _TMP.items() if k not in ("lrot", "dnorm", "onorm", "j")},
                                                       amat=None, vmat=None, dvec=None)),
     },
+    # the rotation's cosine and sine: proved to lie on the unit circle right where they are computed, then only that is kept
+    # (the two formulas for t, the square roots and the division are irrelevant for what follows)
+    cuts={"pdb2pqr.quatfit:jacobi@sscl": {"lemma": "cscl * cscl + sscl * sscl == 1", "forget": ["cscl", "sscl"]}},
     modifies=["amat.*"],
     name="jacobi.orthonormal", native=False, budget=120000,
 )
